@@ -350,6 +350,10 @@ func runTransmit(t *testing.T, p *Plan) *Outcome {
 				}
 			})
 		}
+		// whatever the plan says (a minimised plan may have lost its release), no
+		// sender is held beyond the last operation
+		drv.Run(us(last) + time.Microsecond)
+		gate.Close()
 		// run long enough for every retry (<= 60s Retry-After is never honoured, so 2x timeout + sleeps)
 		drv.Run(us(last) + 2*us(p.N["send_timeout_us"]) + 5*time.Second + 2*bt)
 		if !stopped {
